@@ -49,8 +49,6 @@ SameBook(ref) == ref.u = LU /\ DOMAIN ref.r = LR /\ DOMAIN ref.s = LS
 (* "less" must never concern an operation whose caller is still listening: a routing entry the reference keeps, the
    implementation has dropped, and whose reply sender / item sender somebody still waits on (C01: nothing that happens to
    other IDs disturbs an operation) *)
-LiveRoute(i) == \/ (i \in DOMAIN resmap /\ reply[resmap[i]].st = "empty")
-                \/ (i \in DOMAIN seamap /\ itemRx[seamap[i]])
 LostOK(ref) == \A i \in ((DOMAIN ref.r \ LR) \cup (DOMAIN ref.s \ LS)) : ~LiveRoute(i)
 BookTag(ref) == IF LU \subseteq ref.u /\ LR \subseteq DOMAIN ref.r /\ LS \subseteq DOMAIN ref.s THEN "book:less" ELSE "book:more"
 
@@ -224,6 +222,7 @@ InvDiag ==
   /\ Chk(WireUnique'  , <<"inv", "WireUnique">>)
   /\ Chk(IdRange'     , <<"inv", "IdRange">>)
   /\ Chk(Protected'   , <<"inv", "Protected">>)
+  /\ Chk(RoutedProtected', <<"inv", "RoutedProtected">>)
   /\ Chk(TimeoutExact', <<"inv", "TimeoutExact">>)
   /\ Chk(FailFast'    , <<"inv", "FailFast">>)
   /\ Chk(StreamOK'    , <<"inv", "StreamOK">>)
